@@ -4,7 +4,16 @@ package main
 // seeded by VERIF_SEED so that a disagreement replays exactly.
 type rng struct{ s uint64 }
 
-func newRng(seed uint64) *rng { return &rng{s: seed*0x9E3779B97F4A7C15 + 0x1234567} }
+// newRng scrambles the seed so that consecutive seeds give unrelated streams
+// (splitmix64 output of seed and of seed+1 would otherwise be shifted copies).
+func newRng(seed uint64) *rng {
+	z := seed + 0x632BE59BD9B4E019
+	z = (z ^ (z >> 30)) * 0xBF58476D1CE4E5B9
+	z = (z ^ (z >> 27)) * 0x94D049BB133111EB
+	z ^= z >> 31
+	z = (z ^ (z >> 32)) * 0xD6E8FEB86659FD93
+	return &rng{s: z ^ (z >> 29)}
+}
 
 func (r *rng) u64() uint64 {
 	r.s += 0x9E3779B97F4A7C15
